@@ -107,7 +107,9 @@ Print Assumptions C37_unindexed_change_refuted.
    environment; kinds_of_effects = the recorded provider / storage calls).  Premise: strconv.FormatUint(_, 10) is
    injective and never yields the string standing for "not a number". *)
 From Coq Require Import ZArith String.
-From RQ Require Import Lib.GoLib Gen.Uploader Proofs.C37_Gen.
+From RQ Require Import Lib.GoLib.
+From RQ Require Import Gen.Uploader.
+From RQ Require Import Proofs.C37_Gen.
 Theorem C37_source_derived_eq : forall (fmt : Z -> Z -> string) (nonum : string),
   (forall a b, fmt a 10%Z = fmt b 10%Z -> a = b) -> (forall a, fmt a 10%Z <> nonum) ->
   forall (now : Z) w e,
